@@ -1615,10 +1615,100 @@ def compile_template(
     return template
 
 
+_BINARY_OPERATOR_PRECEDENCE = {
+    ast.BitOr: 7,
+    ast.BitXor: 8,
+    ast.BitAnd: 9,
+    ast.LShift: 10,
+    ast.RShift: 10,
+    ast.Add: 11,
+    ast.Sub: 11,
+    ast.Mult: 12,
+    ast.Div: 12,
+    ast.FloorDiv: 12,
+    ast.Mod: 12,
+    ast.MatMult: 12,
+    ast.Pow: 14,
+}
+
+
+def _precedence(node: ast.AST) -> int:
+    """How tightly the operator of an expression binds, from "x := y" (0) to "x.y" (16)."""
+    if isinstance(node, ast.NamedExpr):
+        return 0
+    if isinstance(node, (ast.Lambda, ast.Yield, ast.YieldFrom)):
+        return 1
+    if isinstance(node, ast.IfExp):
+        return 2
+    if isinstance(node, ast.BoolOp):
+        return 3 if isinstance(node.op, ast.Or) else 4
+    if isinstance(node, ast.UnaryOp):
+        return 5 if isinstance(node.op, ast.Not) else 13
+    if isinstance(node, ast.Compare):
+        return 6
+    if isinstance(node, ast.Starred):
+        return 6
+    if isinstance(node, ast.BinOp):
+        return _BINARY_OPERATOR_PRECEDENCE[type(node.op)]
+    if isinstance(node, ast.Await):
+        return 15
+    if isinstance(node, ast.Constant) and isinstance(node.value, (int, float, complex)):
+        return 13 if unparse(node).startswith("-") else 15  # 1.real is a float, (1).real is not
+    if isinstance(node, (ast.Tuple, ast.GeneratorExp)):
+        return 16 if unparse(node).startswith("(") else 0
+
+    return 16
+
+
+@functools.lru_cache(maxsize=10_000)
+def _operand_wildcards(template: str) -> Mapping[str, int]:
+    """The wildcards that a template uses as an operand, as in "not {{x}}", "{{x}} + 1" or
+    "{{x}}.real", and the precedence of the operator that binds them the tightest."""
+    probe = re.sub(r"\{\{(\w+)\}\}", r"_wildcard__\g<1>__", template)
+    try:
+        root = ast.parse(textwrap.dedent(probe))
+    except SyntaxError:
+        return {}
+
+    operator_types = (
+        ast.UnaryOp,
+        ast.BinOp,
+        ast.BoolOp,
+        ast.Compare,
+        ast.IfExp,
+        ast.Attribute,
+        ast.Subscript,
+        ast.Call,
+        ast.Starred,
+        ast.Await,
+    )
+    operands = {}
+    for node in walk(root, operator_types):
+        children = ast.iter_child_nodes(node)
+        if isinstance(node, ast.Subscript):
+            children = [node.value]  # The index is between brackets already
+        elif isinstance(node, ast.Call):
+            children = [node.func]  # The arguments are between brackets and commas already
+
+        for child in children:
+            if isinstance(child, ast.Name) and re.fullmatch(r"_wildcard__\w+__", child.id):
+                name = child.id[len("_wildcard__") : -len("__")]
+                binds_like_an_atom = isinstance(node, (ast.Attribute, ast.Subscript, ast.Call))
+                precedence = 15 if binds_like_an_atom else _precedence(node)
+                operands[name] = max(operands.get(name, 0), precedence)
+
+    return MappingProxyType(operands)
+
+
 def format_template(source: str, template_match: NamedTuple, **callables) -> str:
     template_match_asdict = template_match._asdict() if hasattr(template_match, "_asdict") else {}
+    operand_wildcards = _operand_wildcards(source)
     for name, value in template_match_asdict.items():
-        source = source.replace("{{" + name + "}}", unparse(value))
+        code = unparse(value)
+        source = source.replace("({{" + name + "}})", f"({code})")
+        if isinstance(value, ast.expr) and _precedence(value) <= operand_wildcards.get(name, -1):
+            code = f"({code})"  # "not {{x}}" is about all of x, also if x is "a or b"
+        source = source.replace("{{" + name + "}}", code)
 
     # It's ok that some of the template_match isn't used, just like str.format()
     # may not use all of the arguments.
